@@ -153,6 +153,18 @@ CHECKS = {
         "object as the primary / explicit form.",
         "Trusts vlib/canon.py (reads public attributes only) and vlib/si.py. Scratch files live under "
         "/verif/.work with the process cwd elsewhere."),
+    "C09": (
+        "Hypothesis generation of scripts and driving histories (iterate / explicit sample calls); "
+        "executable reference model of sampling and termination; differential against an on_iteration run",
+        "Exploration. For generated scripts (three engines, both space types, four policies, structured "
+        "requested-time lists, t_max explicit/default, interleaved explicit sample() calls) a reference model "
+        "reproducing the engine's double arithmetic predicts which iterations are recorded, the recorded times "
+        "bit for bit, every iterate() return value, is_complete() and get_progress(); recorded states must be "
+        "bit-identical to the state after that iteration in an on_iteration run of the same script and seed; "
+        "shapes and the t=0 record are checked; a second facet varies the unit of every time quantity.",
+        "Time quantities of the exact facet are bare numbers in the script's unit system (identity "
+        "conversion); in the unit-variation facet requested times sit >= 1/32 step from step times. Time step "
+        "chosen from the reference law so that Euler / tau-leap stay finite."),
 }
 
 NOT_BUILT = "check not built yet in this working session (planned; DESIGN.md section 4)"
